@@ -208,6 +208,24 @@ def parseDeclLine (ws : Char → Bool) (raw : List Char) :
       | some a => .error (.invalidStartStateName, a)
       | none => .ok (excl, names)
 
+/-- `parseDeclLine` before the names are validated (`declare_start_states` validates them one by one,
+interleaved with the duplicate test, see `Model/LexSpecParse.lean`): `none` = `UnknownDeclaration`.
+`Lemmas/LexSpecParse.lean: parseDeclLine_parts` shows `parseDeclLine` is this followed by
+`firstInvalid`. -/
+def declLineParts (ws : Char → Bool) (raw : List Char) : Option (Bool × List (List Char × Nat × Nat)) :=
+  let line := trimEnd ws raw
+  let decl := line.takeWhile (fun c => !ws c)
+  match declKind decl with
+  | none => none
+  | some excl =>
+    let restLine := line.drop decl.length
+    let lead := restLine.takeWhile ws
+    let params := restLine.dropWhile ws
+    if params.isEmpty then none
+    else
+      some (excl, ((splitWsAt ws params (byteLen decl + byteLen lead)).filter (fun t => !t.1.isEmpty)).map
+        (fun t => (t.1, t.2, t.2 + byteLen t.1)))
+
 /-! ### Flags -/
 
 /-- `LexParser::new_with_lex_flags`: every flag `x.or(DEFAULT_LEX_FLAGS.x)`. Flags are lists in the
